@@ -329,7 +329,27 @@ def quant_noise(rng, rows, cols, blanks=True, sources=True):
         for _ in range(rng.randint(1, 3)):
             r0, c0 = rng.randrange(rows), rng.randrange(cols)
             a[r0:r0 + rng.randint(1, 12), c0:c0 + rng.randint(1, 9)] = np.nan
+    if blanks and rng.random() < 0.35:
+        # blank pixels of the other kinds: +inf / -inf (saturated or flagged samples), alone or next to NaNs
+        for _ in range(rng.randint(1, 4)):
+            a[rng.randrange(rows), rng.randrange(cols)] = rng.choice([np.inf, -np.inf])
     return a
+
+
+def _enc64(v):
+    if np.isnan(v):
+        return None
+    if np.isinf(v):
+        return 'inf' if v > 0 else '-inf'
+    return int(round(v * 64))
+
+
+def _dec64(v):
+    if v is None:
+        return np.nan
+    if isinstance(v, str):
+        return float(v)
+    return v / 64.0
 
 
 def gen_oracle_case(rng, i, thin_ok=False):
@@ -342,11 +362,11 @@ def gen_oracle_case(rng, i, thin_ok=False):
     ns = rng.choice([None, None] + list(range(1, 2 * cores + 1)))
     arr = quant_noise(rng, rows, cols)
     return {'id': i, 'rows': rows, 'cols': cols, 'step': [sr, sc], 'box': [br, bcol], 'cores': cores, 'nslice': ns, 'mask': True,
-            'pixels64': [[None if not np.isfinite(v) else int(round(v * 64)) for v in r] for r in arr]}
+            'pixels64': [[_enc64(v) for v in r] for r in arr]}
 
 
 def oracle_array(case):
-    return np.array([[np.nan if v is None else v / 64.0 for v in r] for r in case['pixels64']], dtype=float)
+    return np.array([[_dec64(v) for v in r] for r in case['pixels64']], dtype=float)
 
 
 def ulp32(x):
